@@ -9,9 +9,9 @@ MODULES = ["contracts.kernels", "contracts.lemmas"]
 def main():
     ap = argparse.ArgumentParser(); ap.add_argument("--repo", default="/repo"); ap.add_argument("--only", nargs="*"); ap.add_argument("--props", nargs="*")
     ap.add_argument("--timeout", type=int, default=30000); ap.add_argument("--both", action="store_true"); ap.add_argument("--procs", type=int, default=16)
-    ap.add_argument("--json"); ap.add_argument("--modules", nargs="*", default=MODULES); ap.add_argument("--quiet", action="store_true"); ap.add_argument("--no-lemmas", action="store_true")
+    ap.add_argument("--json"); ap.add_argument("--modules", nargs="*", default=MODULES); ap.add_argument("--quiet", action="store_true"); ap.add_argument("--no-lemmas", action="store_true"); ap.add_argument("--tier", default="thorough")
     a = ap.parse_args(); t = time.time()
-    rep = registry.run_all(a.repo, a.modules, a.only, a.props, a.timeout, procs=a.procs, both=a.both, lemmas=not a.no_lemmas)
+    rep = registry.run_all(a.repo, a.modules, a.only, a.props, a.timeout, procs=a.procs, both=a.both, lemmas=not a.no_lemmas, tier=a.tier)
     if not a.quiet:
         for f in rep["functions"]:
             status = "STALE " + f["stale"] if "stale" in f else ("UNSUPPORTED " + f["unsupported"] if "unsupported" in f else f"{f['discharged']}/{f['obligations']}")
